@@ -47,6 +47,13 @@ def load_harness(pid):
     import desper
     assert os.path.abspath(desper.__file__).startswith(os.path.abspath(REPO) + os.sep), \
         'desper imported from %s, not from %s' % (desper.__file__, REPO)
+    if not getattr(mod, '_bystander_wrapped', False):
+        # every harness function accepts the reserved parameter `_bystander` (harness/bystander.py)
+        from harness import bystander
+        for spec in mod.HARNESSES.values():
+            if spec.get('kind') != 'custom' and callable(spec.get('fn')):
+                spec['fn'] = bystander.wrap(spec['fn'])
+        mod._bystander_wrapped = True
     return mod
 
 
@@ -435,6 +442,9 @@ def run_property(pid, tier, seed):
     for idx, entry in enumerate(plan):
         hname, params = entry[0], entry[1]
         spec = mod.HARNESSES[hname]
+        if tier == 'quick' and spec.get('kind') != 'custom' and getattr(mod, 'BYSTANDERS', True):
+            # quick tier: a second set of independent desper objects is alive during every path and must be untouched
+            params = dict(params, _bystander=True)
         key = (hname, idx)
         agg = new_result()
         agg['params'] = params
